@@ -79,3 +79,864 @@ Lemma firstn_app_exact : forall (A : Type) (a b : list A) k, k = length a -> fir
 Proof. intros. subst. rewrite firstn_app, Nat.sub_diag, firstn_all. cbn [firstn]. apply app_nil_r. Qed.
 Lemma skipn_app_exact : forall (A : Type) (a b : list A) k, k = length a -> skipn k (a ++ b) = b.
 Proof. intros. subst. rewrite skipn_app, Nat.sub_diag, skipn_all. reflexivity. Qed.
+
+(* ---- ZSTD_getFrameHeader on a serialised header ---- *)
+Ltac Zify.zify_post_hook ::= Z.div_mod_to_equations.
+
+Lemma fhd_fields : forall d c s f, 0 <= d <= 3 -> 0 <= f <= 3 -> 0 <= c <= 1 -> 0 <= s <= 1 ->
+  let x := d + 4 * c + 32 * s + 64 * f in
+  x mod 4 = d /\ (x / 4) mod 2 = c /\ (x / 8) mod 2 = 0 /\ (x / 32) mod 2 = s /\ x / 64 = f.
+Proof. intros. subst x. repeat split; lia. Qed.
+
+Definition zfh_of (h : fhdr) : zfh :=
+  mk_zfh (fcs_of h) (window_of h) (bsmax_of h) false (hsize_of h) (h_did h) (h_chk h).
+
+Definition pos1_of (h : fhdr) : nat := if h_single h then 5%nat else 6%nat.
+Definition pos2_of (h : fhdr) : nat := (pos1_of h + did_width (h_didc h))%nat.
+
+Lemma did_width_switch_eq : forall c, did_width_switch c = did_width c.
+Proof. reflexivity. Qed.
+
+Lemma b2z_eqb1 : forall b, (b2z b =? 1) = b. Proof. destruct b; reflexivity. Qed.
+Lemma b2z_eqb0 : forall b, (b2z b =? 0) = negb b. Proof. destruct b; reflexivity. Qed.
+
+Lemma gfh_from_facts : forall src h,
+  wf_hdr h ->
+  le (firstn 4 src) = MAGIC ->
+  nth 4 src 0 = fhd_byte h ->
+  frame_header_size src = Some (hsize_of h) ->
+  hsize_of h <= len src -> MIN_INPUT <= len src ->
+  (h_single h = false -> nth 5 src 0 = 8 * h_wexp h + h_wmant h) ->
+  le (firstn (did_width (h_didc h)) (skipn (pos1_of h) src)) = h_did h ->
+  (h_fcsc h = 0 -> h_single h = true -> nth (pos2_of h) src 0 = h_fcs h) ->
+  (h_fcsc h = 1 -> le (firstn 2 (skipn (pos2_of h) src)) = h_fcs h - 256) ->
+  (h_fcsc h = 2 -> le (firstn 4 (skipn (pos2_of h) src)) = h_fcs h) ->
+  (h_fcsc h = 3 -> le (firstn 8 (skipn (pos2_of h) src)) = h_fcs h) ->
+  get_frame_header src = HOk (zfh_of h).
+Proof.
+  intros src h Hwf Hmagic Hfhd Hfhs Hlen Hmin Hwb Hdid Hf0 Hf1 Hf2 Hf3.
+  destruct Hwf as (Hd & Hdidr & Hf & Hw & Hfcs).
+  unfold get_frame_header.
+  destruct (Z.ltb_spec (len src) MIN_INPUT); [lia|].
+  rewrite Hmagic, Z.eqb_refl. cbn [negb].
+  rewrite Hfhs.
+  destruct (Z.ltb_spec (len src) (hsize_of h)); [lia|].
+  change (Z.to_nat (MIN_INPUT - 1)) with 4%nat. change (Z.to_nat MIN_INPUT) with 5%nat.
+  rewrite Hfhd. unfold fhd_byte.
+  assert (Hc : 0 <= b2z (h_chk h) <= 1) by (destruct (h_chk h); cbn; lia).
+  assert (Hs : 0 <= b2z (h_single h) <= 1) by (destruct (h_single h); cbn; lia).
+  destruct (fhd_fields (h_didc h) (b2z (h_chk h)) (b2z (h_single h)) (h_fcsc h) Hd Hf Hc Hs) as (E1 & E2 & E3 & E4 & E5).
+  cbv zeta in E1, E2, E3, E4, E5. rewrite E1, E2, E3, E4, E5.
+  cbn [Z.eqb negb]. rewrite did_width_switch_eq.
+  rewrite !b2z_eqb1, !b2z_eqb0.
+  unfold zfh_of, bsmax_of, fcs_of, window_of, has_fcs, pos2_of, pos1_of in *.
+  destruct (h_single h) eqn:Hsingle; cbn [negb andb orb].
+  - (* single segment *)
+    rewrite Hdid. f_equal.
+    destruct (Z.eqb_spec (h_fcsc h) 0) as [E0|N0].
+    + rewrite (Hf0 E0 eq_refl). reflexivity.
+    + destruct (Z.eqb_spec (h_fcsc h) 1) as [Ea|Na].
+      * rewrite (Hf1 Ea). replace (h_fcs h - 256 + 256) with (h_fcs h) by lia. reflexivity.
+      * destruct (Z.eqb_spec (h_fcsc h) 2) as [Eb|Nb].
+        -- rewrite (Hf2 Eb). reflexivity.
+        -- rewrite (Hf3 ltac:(lia)). reflexivity.
+  - (* window descriptor *)
+    rewrite (Hwb eq_refl). destruct (Hw eq_refl) as (Hw1 & Hw2 & Hw3).
+    assert (Ew : (8 * h_wexp h + h_wmant h) / 8 = h_wexp h) by lia.
+    assert (Em : (8 * h_wexp h + h_wmant h) mod 8 = h_wmant h) by lia.
+    rewrite Ew, Em.
+    destruct (Z.gtb_spec (h_wexp h + WLOG_ABSMIN) WLOG_MAX); [lia|].
+    rewrite Hdid. f_equal.
+    destruct (Z.eqb_spec (h_fcsc h) 0) as [E0|N0].
+    + cbn [negb]. reflexivity.
+    + cbn [negb].
+      destruct (Z.eqb_spec (h_fcsc h) 1) as [Ea|Na].
+      * rewrite (Hf1 Ea). replace (h_fcs h - 256 + 256) with (h_fcs h) by lia. reflexivity.
+      * destruct (Z.eqb_spec (h_fcsc h) 2) as [Eb|Nb].
+        -- rewrite (Hf2 Eb). reflexivity.
+        -- rewrite (Hf3 ltac:(lia)). reflexivity.
+Qed.
+
+Lemma pow256 : forall k, 256 ^ Z.of_nat k > 0.
+Proof. intros. apply Z.lt_gt. apply Z.pow_pos_nonneg; lia. Qed.
+
+(* structure of a serialised header: prefix (magic, descriptor), optional window byte, dictionary id, content size *)
+Definition hdr_tail (h : fhdr) : list Z := ser_le (did_width (h_didc h)) (h_did h) ++ ser_fcs h.
+
+Lemma ser_header_shape : forall h,
+  ser_header h = ser_le 4 MAGIC ++ fhd_byte h :: (if h_single h then [] else [8 * h_wexp h + h_wmant h]) ++ hdr_tail h.
+Proof. intros. unfold ser_header, hdr_tail. cbn [app]. reflexivity. Qed.
+
+Lemma len_ser_fcs : forall h, 0 <= h_fcsc h <= 3 ->
+  len (ser_fcs h) = fcs_size (h_fcsc h) + (if h_single h && (h_fcsc h =? 0) then 1 else 0).
+Proof.
+  intros h Hf. unfold ser_fcs.
+  destruct fcs_size_vals as (F0 & F1 & F2 & F3).
+  assert (Hc : h_fcsc h = 0 \/ h_fcsc h = 1 \/ h_fcsc h = 2 \/ h_fcsc h = 3) by lia.
+  destruct Hc as [E|[E|[E|E]]]; rewrite E; cbn [Z.eqb Pos.eqb andb].
+  - rewrite F0. destruct (h_single h); reflexivity.
+  - rewrite F1, Bool.andb_false_r. reflexivity.
+  - rewrite F2, Bool.andb_false_r. reflexivity.
+  - rewrite F3, Bool.andb_false_r. reflexivity.
+Qed.
+
+Lemma len_did : forall c v, 0 <= c <= 3 -> len (ser_le (did_width c) v) = did_size c.
+Proof.
+  intros c v Hc. rewrite len_ser_le.
+  destruct did_size_vals as (D0 & D1 & D2 & D3).
+  assert (H : c = 0 \/ c = 1 \/ c = 2 \/ c = 3) by lia.
+  destruct H as [E|[E|[E|E]]]; subst c; cbn [did_width Z.eqb Pos.eqb]; [rewrite D0|rewrite D1|rewrite D2|rewrite D3]; reflexivity.
+Qed.
+
+Lemma hsize_formula : forall h, 0 <= h_didc h <= 3 -> 0 <= h_fcsc h <= 3 ->
+  hsize_of h = MIN_INPUT + (1 - b2z (h_single h)) + did_size (h_didc h) + fcs_size (h_fcsc h)
+               + (if h_single h && (h_fcsc h =? 0) then 1 else 0).
+Proof.
+  intros h Hd Hf. unfold hsize_of. rewrite ser_header_shape. unfold hdr_tail.
+  rewrite len_app, len_cons, !len_app, len_ser_le, (len_did _ _ Hd), (len_ser_fcs _ Hf).
+  rewrite MIN_INPUT_val. destruct (h_single h); cbn [b2z]; rewrite ?len_nil, ?len_cons, ?len_nil;
+    change (Z.of_nat 4) with 4; lia.
+Qed.
+
+Lemma ser_header_facts : forall h rest, wf_hdr h ->
+  let src := ser_header h ++ rest in
+  le (firstn 4 src) = MAGIC /\ nth 4 src 0 = fhd_byte h /\
+  len src = hsize_of h + len rest /\
+  (h_single h = false -> nth 5 src 0 = 8 * h_wexp h + h_wmant h) /\
+  skipn (pos1_of h) src = hdr_tail h ++ rest.
+Proof.
+  intros h rest Hwf src. subst src. rewrite ser_header_shape.
+  split; [|split; [|split; [|split]]].
+  - rewrite <- app_assoc. rewrite firstn_app_exact by (rewrite length_ser_le; reflexivity).
+    apply le_ser_le_small. rewrite MAGIC_val. change (256 ^ Z.of_nat 4) with 4294967296. lia.
+  - cbn [ser_le app nth]. reflexivity.
+  - rewrite <- ser_header_shape. unfold hsize_of. apply len_app.
+  - intros Hs. rewrite Hs. cbn [ser_le app nth]. reflexivity.
+  - unfold pos1_of. destruct (h_single h); cbn [ser_le app skipn]; reflexivity.
+Qed.
+
+Lemma frame_header_size_ser : forall h rest, wf_hdr h ->
+  frame_header_size (ser_header h ++ rest) = Some (hsize_of h).
+Proof.
+  intros h rest Hwf. destruct (ser_header_facts h rest Hwf) as (_ & Hfhd & Hlen & _ & _).
+  destruct Hwf as (Hd & _ & Hf & _ & _).
+  unfold frame_header_size. rewrite Hlen.
+  pose proof (len_nonneg _ rest). pose proof (hsize_formula h Hd Hf) as Hhs.
+  assert (Hc : 0 <= b2z (h_chk h) <= 1) by (destruct (h_chk h); cbn; lia).
+  assert (Hs : 0 <= b2z (h_single h) <= 1) by (destruct (h_single h); cbn; lia).
+  assert (0 <= did_size (h_didc h)).
+  { destruct did_size_vals as (D0 & D1 & D2 & D3).
+    assert (Hx : h_didc h = 0 \/ h_didc h = 1 \/ h_didc h = 2 \/ h_didc h = 3) by lia.
+    destruct Hx as [E|[E|[E|E]]]; rewrite E; lia. }
+  assert (0 <= fcs_size (h_fcsc h)).
+  { destruct fcs_size_vals as (D0 & D1 & D2 & D3).
+    assert (Hx : h_fcsc h = 0 \/ h_fcsc h = 1 \/ h_fcsc h = 2 \/ h_fcsc h = 3) by lia.
+    destruct Hx as [E|[E|[E|E]]]; rewrite E; lia. }
+  destruct (Z.ltb_spec (hsize_of h + len rest) MIN_INPUT).
+  { rewrite MIN_INPUT_val in *. destruct (h_single h && (h_fcsc h =? 0)); lia. }
+  change (Z.to_nat (MIN_INPUT - 1)) with 4%nat. rewrite Hfhd. unfold fhd_byte.
+  destruct (fhd_fields (h_didc h) (b2z (h_chk h)) (b2z (h_single h)) (h_fcsc h) Hd Hf Hc Hs) as (E1 & E2 & E3 & E4 & E5).
+  cbv zeta in E1, E2, E3, E4, E5. rewrite E1, E4, E5. rewrite b2z_eqb1. rewrite Hhs. reflexivity.
+Qed.
+
+Lemma skipn_add : forall (A : Type) (a b : nat) (l : list A), skipn (a + b) l = skipn b (skipn a l).
+Proof.
+  induction a as [|a IH]; intros b l; [reflexivity|].
+  destruct l; cbn [Nat.add skipn]; [destruct b; reflexivity|apply IH].
+Qed.
+
+Lemma nth_as_skipn : forall (l : list Z) k, nth k l 0 = nth 0 (skipn k l) 0.
+Proof.
+  induction l as [|x t IH]; intros k.
+  - destruct k; reflexivity.
+  - destruct k; cbn [nth skipn]; [reflexivity|apply IH].
+Qed.
+
+Theorem get_frame_header_ser : forall h rest, wf_hdr h ->
+  get_frame_header (ser_header h ++ rest) = HOk (zfh_of h).
+Proof.
+  intros h rest Hwf.
+  destruct (ser_header_facts h rest Hwf) as (Hmagic & Hfhd & Hlen & Hwb & Hskip).
+  pose proof (frame_header_size_ser h rest Hwf) as Hfhs.
+  pose proof Hwf as (Hd & Hdid & Hf & Hw & Hfcs).
+  pose proof (len_nonneg _ rest) as Hr.
+  pose proof (hsize_formula h Hd Hf) as Hhs.
+  assert (Hmin : MIN_INPUT <= hsize_of h).
+  { rewrite Hhs. destruct did_size_vals as (D0 & D1 & D2 & D3). destruct fcs_size_vals as (G0 & G1 & G2 & G3).
+    assert (Hx : h_didc h = 0 \/ h_didc h = 1 \/ h_didc h = 2 \/ h_didc h = 3) by lia.
+    assert (Hy : h_fcsc h = 0 \/ h_fcsc h = 1 \/ h_fcsc h = 2 \/ h_fcsc h = 3) by lia.
+    destruct (h_single h); cbn [b2z andb];
+    destruct Hx as [E|[E|[E|E]]]; rewrite E; destruct Hy as [E'|[E'|[E'|E']]]; rewrite E'; cbn [Z.eqb Pos.eqb]; lia. }
+  (* what follows the dictionary id *)
+  assert (Hskip2 : skipn (pos2_of h) (ser_header h ++ rest) = ser_fcs h ++ rest).
+  { unfold pos2_of. rewrite skipn_add, Hskip. unfold hdr_tail. rewrite <- app_assoc.
+    apply skipn_app_exact. rewrite length_ser_le. reflexivity. }
+  apply gfh_from_facts; try assumption; try lia.
+  - rewrite Hskip. unfold hdr_tail. rewrite <- app_assoc.
+    rewrite firstn_app_exact by (rewrite length_ser_le; reflexivity).
+    apply le_ser_le_small. exact Hdid.
+  - intros E0 Es. rewrite nth_as_skipn, Hskip2. unfold ser_fcs. rewrite E0, Es. reflexivity.
+  - intros E1. rewrite Hskip2. unfold ser_fcs. rewrite E1. cbn [Z.eqb Pos.eqb].
+    rewrite firstn_app_exact by (rewrite length_ser_le; reflexivity).
+    apply le_ser_le_small.
+    assert (Hh : has_fcs h = true) by (unfold has_fcs; rewrite E1; apply Bool.orb_true_r).
+    destruct (Hfcs Hh) as (_ & H1 & _). specialize (H1 E1). change (256 ^ Z.of_nat 2) with 65536. lia.
+  - intros E2. rewrite Hskip2. unfold ser_fcs. rewrite E2. cbn [Z.eqb Pos.eqb].
+    rewrite firstn_app_exact by (rewrite length_ser_le; reflexivity).
+    apply le_ser_le_small.
+    assert (Hh : has_fcs h = true) by (unfold has_fcs; rewrite E2; apply Bool.orb_true_r).
+    destruct (Hfcs Hh) as (_ & _ & H2 & _). specialize (H2 E2). rewrite W32_val in H2.
+    change (256 ^ Z.of_nat 4) with 4294967296. lia.
+  - intros E3. rewrite Hskip2. unfold ser_fcs. rewrite E3. cbn [Z.eqb Pos.eqb].
+    rewrite firstn_app_exact by (rewrite length_ser_le; reflexivity).
+    apply le_ser_le_small.
+    assert (Hh : has_fcs h = true) by (unfold has_fcs; rewrite E3; apply Bool.orb_true_r).
+    destruct (Hfcs Hh) as (_ & _ & _ & H3). specialize (H3 E3). rewrite CS_ERROR_val in H3.
+    change (256 ^ Z.of_nat 8) with 18446744073709551616. lia.
+Qed.
+
+(* ---- block headers and the block walk ---- *)
+Definition blk_csize (b : blk) : Z := len (b_payload b).
+
+Lemma wf_blk_sizes : forall bsmax b, wf_blk bsmax b ->
+  0 <= blk_sizefield b < 2 ^ 21 /\ 0 <= blk_csize b /\
+  (b_type b = BRle -> blk_csize b = 1).
+Proof.
+  intros bsmax b (Hr & Hs & Ht). unfold blk_csize. pose proof (len_nonneg _ (b_payload b)).
+  unfold blk_sizefield in *. destruct (b_type b); repeat split; try lia; try discriminate.
+  intros _. rewrite len_spec, Ht. reflexivity.
+Qed.
+
+Lemma block_header_decode : forall last bt sz,
+  0 <= bt <= 2 -> 0 <= sz < 2 ^ 21 ->
+  let hv := b2z last + 2 * bt + 8 * sz in
+  let h := hv mod 256 + 256 * ((hv / 256) mod 256) + 65536 * ((hv / 256 / 256) mod 256) in
+  h = hv /\ hv / 8 = sz /\ (hv / 2) mod 4 = bt /\ (hv mod 2 =? 1) = last.
+Proof.
+  intros last bt sz Hbt Hsz hv h. change (2 ^ 21) with 2097152 in Hsz.
+  assert (Hl : 0 <= b2z last <= 1) by (destruct last; cbn; lia).
+  assert (Hhv : 0 <= hv < 16777216) by (subst hv; lia).
+  assert (E : h = hv) by (subst h; lia).
+  repeat split; try assumption; subst hv; try lia.
+  destruct last; cbn [b2z]; apply Z.eqb_eq || apply Z.eqb_neq; lia.
+Qed.
+
+Lemma get_cblock_size_ser : forall bsmax last b rest, wf_blk bsmax b ->
+  get_cblock_size (ser_block last b ++ rest) =
+    Some ((match b_type b with BRle => 1 | _ => blk_sizefield b end), bt_code (b_type b), last, blk_sizefield b).
+Proof.
+  intros bsmax last b rest Hwf. destruct (wf_blk_sizes _ _ Hwf) as (Hs & _ & _).
+  unfold ser_block. cbn [ser_le app get_cblock_size].
+  assert (Hbt : 0 <= bt_code (b_type b) <= 2) by (destruct (b_type b); cbn; lia).
+  destruct (block_header_decode last (bt_code (b_type b)) (blk_sizefield b) Hbt Hs) as (E1 & E2 & E3 & E4).
+  cbv zeta in E1, E2, E3, E4. rewrite E1, E2, E3, E4.
+  destruct (b_type b); cbn [bt_code Z.eqb Pos.eqb]; reflexivity.
+Qed.
+
+Lemma len_ser_block : forall last b, len (ser_block last b) = BHSZ + blk_csize b.
+Proof. intros. unfold ser_block, blk_csize. rewrite len_app, len_ser_le, BHSZ_val. reflexivity. Qed.
+
+Fixpoint csize_blocks (bl : list blk) : Z :=
+  match bl with [] => 0 | b :: t => BHSZ + blk_csize b + csize_blocks t end.
+
+Lemma len_ser_blocks : forall bl, len (ser_blocks bl) = csize_blocks bl.
+Proof.
+  induction bl as [|b t IH]; [reflexivity|].
+  destruct t as [|b' t'].
+  - cbn [ser_blocks csize_blocks]. rewrite len_ser_block. lia.
+  - change (ser_blocks (b :: b' :: t')) with (ser_block false b ++ ser_blocks (b' :: t')).
+    rewrite len_app, len_ser_block, IH. cbn [csize_blocks]. lia.
+Qed.
+
+Lemma walk_one_block : forall bsmax last b rest, wf_blk bsmax b ->
+  get_cblock_size (ser_block last b ++ rest) <> None /\
+  forall cs bt l o, get_cblock_size (ser_block last b ++ rest) = Some (cs, bt, l, o) ->
+    l = last /\ cs = blk_csize b /\ drop_exact (ser_block last b ++ rest) (BHSZ + cs) = Some rest.
+Proof.
+  intros bsmax last b rest Hwf. rewrite (get_cblock_size_ser bsmax last b rest Hwf). split; [discriminate|].
+  intros cs bt l o Heq. injection Heq as <- <- <- <-.
+  destruct (wf_blk_sizes _ _ Hwf) as (_ & _ & Hrle).
+  assert (Ecs : (match b_type b with BRle => 1 | _ => blk_sizefield b end) = blk_csize b).
+  { destruct (b_type b) eqn:Et; unfold blk_sizefield, blk_csize; rewrite ?Et; try reflexivity.
+    symmetry. apply Hrle. reflexivity. }
+  rewrite Ecs. repeat split.
+  apply drop_exact_app_eq. rewrite len_ser_block. reflexivity.
+Qed.
+
+Lemma some_triple_eq : forall (r : list Z) (a a' b b' : Z), a = a' -> b = b' -> Some (r, a, b) = Some (r, a', b').
+Proof. intros. subst. reflexivity. Qed.
+
+Lemma walk_blocks_ser : forall bsmax bl fuel rest consumed nb,
+  bl <> [] -> Forall (wf_blk bsmax) bl -> (length bl <= length fuel)%nat ->
+  walk_blocks fuel (ser_blocks bl ++ rest) consumed nb =
+    Some (rest, consumed + csize_blocks bl, nb + len bl).
+Proof.
+  induction bl as [|b t IH]; intros fuel rest consumed nb Hne Hwf Hfuel; [congruence|].
+  destruct fuel as [|x fuel]; [cbn [length] in Hfuel; lia|].
+  inversion Hwf as [|? ? Hb Ht]; subst.
+  destruct t as [|b' t'].
+  - cbn [ser_blocks walk_blocks].
+    destruct (walk_one_block bsmax true b rest Hb) as (Hnn & Hall).
+    destruct (get_cblock_size (ser_block true b ++ rest)) as [[[[cs bt] l] o]|] eqn:Hg; [|congruence].
+    destruct (Hall cs bt l o eq_refl) as (-> & -> & Hd). rewrite Hd.
+    cbv iota. cbn [csize_blocks]. rewrite len_cons, len_nil. apply some_triple_eq; lia.
+  - change (ser_blocks (b :: b' :: t')) with (ser_block false b ++ ser_blocks (b' :: t')).
+    rewrite <- app_assoc. cbn [walk_blocks].
+    destruct (walk_one_block bsmax false b (ser_blocks (b' :: t') ++ rest) Hb) as (Hnn & Hall).
+    destruct (get_cblock_size (ser_block false b ++ ser_blocks (b' :: t') ++ rest)) as [[[[cs bt] l] o]|] eqn:Hg; [|congruence].
+    destruct (Hall cs bt l o eq_refl) as (-> & -> & Hd). rewrite Hd.
+    rewrite IH; [|discriminate|assumption|cbn [length] in *; lia].
+    cbn [csize_blocks]. rewrite (len_cons _ b). apply some_triple_eq; lia.
+Qed.
+
+Lemma length_ser_blocks_ge : forall bl, (length bl <= length (ser_blocks bl))%nat.
+Proof.
+  intros bl.
+  assert (Hc : Z.of_nat (length bl) <= csize_blocks bl).
+  { induction bl as [|b t IH]; [cbn; lia|]. cbn [csize_blocks length]. unfold blk_csize.
+    pose proof (len_nonneg _ (b_payload b)). rewrite BHSZ_val. lia. }
+  pose proof (len_ser_blocks bl) as H. rewrite len_spec in H. lia.
+Qed.
+
+(* ---- ZSTD_findFrameSizeInfo on a serialised frame ---- *)
+Lemma skippable_magic_ok : forall v, 0 <= v <= 15 -> is_skippable_magic (SKIP_START + v) = true.
+Proof.
+  intros v Hv. assert (H : v = 0 \/ v = 1 \/ v = 2 \/ v = 3 \/ v = 4 \/ v = 5 \/ v = 6 \/ v = 7 \/ v = 8 \/ v = 9 \/
+                       v = 10 \/ v = 11 \/ v = 12 \/ v = 13 \/ v = 14 \/ v = 15) by lia.
+  repeat (destruct H as [->|H]; [reflexivity|]). subst. reflexivity.
+Qed.
+
+Lemma is_skippable_magic_MAGIC : is_skippable_magic MAGIC = false.
+Proof. reflexivity. Qed.
+
+Definition frame_len (f : frame) : Z := len (ser_frame f).
+
+Lemma frame_len_Z : forall h bl ck, h_chk h = true -> length ck = 4%nat \/ True ->
+  frame_len (ZFrame h bl ck) = hsize_of h + csize_blocks bl + (if h_chk h then len ck else 0).
+Proof.
+  intros h bl ck _ _. unfold frame_len. cbn [ser_frame]. rewrite !len_app, len_ser_blocks. unfold hsize_of.
+  destruct (h_chk h); rewrite ?len_nil; lia.
+Qed.
+
+Lemma frame_len_ZFrame : forall h bl ck,
+  frame_len (ZFrame h bl ck) = hsize_of h + csize_blocks bl + (if h_chk h then len ck else 0).
+Proof.
+  intros h bl ck. unfold frame_len. cbn [ser_frame]. rewrite !len_app, len_ser_blocks. unfold hsize_of.
+  destruct (h_chk h); rewrite ?len_nil; lia.
+Qed.
+
+Lemma fsi_eq : forall a a' b b' c c', a = a' -> b = b' -> c = c' -> Some (mk_fsi a b c) = Some (mk_fsi a' b' c').
+Proof. intros. subst. reflexivity. Qed.
+
+Theorem find_frame_size_info_ser : forall f rest, wf_frame f ->
+  find_frame_size_info (ser_frame f ++ rest) = Some (mk_fsi (frame_len f) (bound_of f) (nb_of f)).
+Proof.
+  intros f rest Hwf. destruct f as [h bl ck|v p].
+  - (* zstd frame *)
+    destruct Hwf as (Hh & Hne & Hbl & Hck & Hfcs).
+    rewrite frame_len_ZFrame. cbn [ser_frame bound_of nb_of].
+    rewrite <- !app_assoc.
+    destruct (ser_header_facts h (ser_blocks bl ++ (if h_chk h then ck else []) ++ rest) Hh) as (Hmagic & _).
+    unfold find_frame_size_info. rewrite Hmagic, is_skippable_magic_MAGIC, Bool.andb_false_r.
+    rewrite (get_frame_header_ser h _ Hh). unfold zfh_of. cbn [fh_hsize fh_fcs fh_bsmax fh_chk].
+    rewrite (drop_exact_app_eq (ser_header h)) by reflexivity.
+    rewrite (walk_blocks_ser (bsmax_of h) bl); [|assumption|assumption|].
+    2:{ cbn [length]. rewrite app_length. pose proof (length_ser_blocks_ge bl). lia. }
+    assert (Ebnd : (if fcs_of h =? CS_UNKNOWN then (0 + len bl) * bsmax_of h else fcs_of h)
+                   = (if has_fcs h then h_fcs h else len bl * bsmax_of h)).
+    { unfold fcs_of. destruct (has_fcs h) eqn:Hhas.
+      - destruct Hh as (_ & _ & Hf & _ & Hr). specialize (Hr Hhas).
+        assert (h_fcs h < CS_UNKNOWN).
+        { rewrite CS_UNKNOWN_val. destruct Hr as (R0 & R1 & R2 & R3). rewrite W32_val, CS_ERROR_val in *.
+          assert (Hy : h_fcsc h = 0 \/ h_fcsc h = 1 \/ h_fcsc h = 2 \/ h_fcsc h = 3) by lia.
+          destruct Hy as [E|[E|[E|E]]]; [specialize (R0 E)|specialize (R1 E)|specialize (R2 E)|specialize (R3 E)]; lia. }
+        destruct (Z.eqb_spec (h_fcs h) CS_UNKNOWN); [lia|reflexivity].
+      - rewrite Z.eqb_refl. rewrite Z.add_0_l. reflexivity. }
+    rewrite Ebnd. rewrite CKSZ_val.
+    destruct (h_chk h) eqn:Hc.
+    + specialize (Hck eq_refl).
+      assert (Hl4 : len ck = 4) by (rewrite len_spec, Hck; reflexivity).
+      rewrite (drop_exact_app_eq ck rest 4) by (symmetry; exact Hl4).
+      rewrite Hl4. apply fsi_eq; lia.
+    + cbn [app]. apply fsi_eq; lia.
+  - (* skippable frame *)
+    destruct Hwf as (Hv & Hp). cbn [ser_frame bound_of nb_of]. unfold frame_len. cbn [ser_frame].
+    pose proof (len_nonneg _ p) as Hp0. rewrite SKIPHDR_val, W32_val in Hp.
+    assert (Hmagic : le (firstn 4 ((ser_le 4 (SKIP_START + v) ++ ser_le 4 (len p) ++ p) ++ rest)) = SKIP_START + v).
+    { rewrite <- app_assoc. rewrite firstn_app_exact by (rewrite length_ser_le; reflexivity).
+      apply le_ser_le_small. rewrite SKIP_START_val. change (256 ^ Z.of_nat 4) with 4294967296. lia. }
+    assert (Hlen : len ((ser_le 4 (SKIP_START + v) ++ ser_le 4 (len p) ++ p) ++ rest) = 8 + len p + len rest).
+    { rewrite !len_app, !len_ser_le. change (Z.of_nat 4) with 4. lia. }
+    assert (Hsz : le (firstn 4 (skipn (Z.to_nat FRAMEIDSIZE) ((ser_le 4 (SKIP_START + v) ++ ser_le 4 (len p) ++ p) ++ rest))) = len p).
+    { change (Z.to_nat FRAMEIDSIZE) with 4%nat. rewrite <- !app_assoc.
+      rewrite skipn_app_exact by (rewrite length_ser_le; reflexivity).
+      rewrite firstn_app_exact by (rewrite length_ser_le; reflexivity).
+      apply le_ser_le_small. change (256 ^ Z.of_nat 4) with 4294967296. lia. }
+    pose proof (len_nonneg _ rest) as Hr0.
+    unfold find_frame_size_info. rewrite Hmagic, (skippable_magic_ok v Hv), Hlen, SKIPHDR_val.
+    destruct (Z.leb_spec 8 (8 + len p + len rest)); [|lia]. cbn [andb].
+    unfold read_skippable_frame_size. rewrite Hlen, Hsz, SKIPHDR_val, W32_val.
+    destruct (Z.ltb_spec (8 + len p + len rest) 8); [lia|].
+    rewrite Z.mod_small by lia.
+    destruct (Z.ltb_spec (len p + 8) (len p)); [lia|].
+    destruct (Z.gtb_spec (8 + len p) (8 + len p + len rest)); [lia|].
+    apply fsi_eq; try reflexivity. rewrite !len_app, !len_ser_le. change (Z.of_nat 4) with 4. lia.
+Qed.
+
+(* ---- whole inputs: sequences of frames ---- *)
+Lemma frame_len_ge4 : forall f, 4 <= frame_len f.
+Proof.
+  intros f. unfold frame_len. destruct f as [h bl ck|v p]; cbn [ser_frame].
+  - rewrite ser_header_shape, <- app_assoc, len_app, len_ser_le. change (Z.of_nat 4) with 4.
+    match goal with |- _ <= _ + len ?l => pose proof (len_nonneg _ l) end. lia.
+  - rewrite !len_app, !len_ser_le. change (Z.of_nat 4) with 4. pose proof (len_nonneg _ p). lia.
+Qed.
+
+Lemma len_ser_frames_cons : forall f t, len (ser_frames (f :: t)) = frame_len f + len (ser_frames t).
+Proof. intros. cbn [ser_frames]. rewrite len_app. reflexivity. Qed.
+
+Lemma window_of_nonneg : forall h, wf_hdr h -> 0 <= window_of h.
+Proof.
+  intros h (Hd & _ & Hf & Hw & Hfcs). unfold window_of. destruct (h_single h) eqn:Hs.
+  - assert (Hh : has_fcs h = true) by (unfold has_fcs; rewrite Hs; reflexivity).
+    destruct (Hfcs Hh) as (R0 & R1 & R2 & R3).
+    assert (Hy : h_fcsc h = 0 \/ h_fcsc h = 1 \/ h_fcsc h = 2 \/ h_fcsc h = 3) by lia.
+    destruct Hy as [E|[E|[E|E]]]; [specialize (R0 E)|specialize (R1 E)|specialize (R2 E)|specialize (R3 E)]; lia.
+  - destruct (Hw eq_refl) as (H1 & H2 & H3). rewrite WLOG_ABSMIN_val in *.
+    assert (0 < 2 ^ (h_wexp h + 10)) by (apply Z.pow_pos_nonneg; lia).
+    assert (0 <= 2 ^ (h_wexp h + 10) / 8) by (apply Z.div_pos; lia).
+    assert (0 <= 2 ^ (h_wexp h + 10) / 8 * h_wmant h) by (apply Z.mul_nonneg_nonneg; lia). lia.
+Qed.
+
+Lemma bsmax_of_nonneg : forall h, wf_hdr h -> 0 <= bsmax_of h <= BSMAX.
+Proof. intros h Hh. pose proof (window_of_nonneg h Hh). unfold bsmax_of. rewrite BSMAX_val. lia. Qed.
+
+Lemma fcs_range : forall h, wf_hdr h -> has_fcs h = true -> 0 <= h_fcs h < CS_ERROR.
+Proof.
+  intros h (Hd & _ & Hf & Hw & Hfcs) Hh. destruct (Hfcs Hh) as (R0 & R1 & R2 & R3).
+  rewrite W32_val, CS_ERROR_val in *.
+  assert (Hy : h_fcsc h = 0 \/ h_fcsc h = 1 \/ h_fcsc h = 2 \/ h_fcsc h = 3) by lia.
+  destruct Hy as [E|[E|[E|E]]]; [specialize (R0 E)|specialize (R1 E)|specialize (R2 E)|specialize (R3 E)]; lia.
+Qed.
+
+Lemma regen_blocks_le : forall bsmax bl, Forall (wf_blk bsmax) bl -> 0 <= regen_blocks bl <= len bl * bsmax.
+Proof.
+  induction bl as [|b t IH]; intros Hwf.
+  - cbn [regen_blocks]. rewrite len_nil. lia.
+  - inversion Hwf as [|? ? Hb Ht]; subst. specialize (IH Ht). destruct Hb as (Hr & _).
+    cbn [regen_blocks]. rewrite len_cons. lia.
+Qed.
+
+Lemma bound_of_ge_regen : forall f, wf_frame f -> 0 <= regen_frame f <= bound_of f.
+Proof.
+  intros f Hwf. destruct f as [h bl ck|v p]; cbn [regen_frame bound_of]; [|lia].
+  destruct Hwf as (Hh & Hne & Hbl & Hck & Hfcs). pose proof (regen_blocks_le _ _ Hbl).
+  destruct (has_fcs h) eqn:Hhas; [rewrite (Hfcs eq_refl)|]; lia.
+Qed.
+
+Lemma bound_frames_ge_regen : forall fl, Forall wf_frame fl -> 0 <= regen_frames fl <= bound_frames fl.
+Proof.
+  induction fl as [|f t IH]; intros Hwf; cbn [regen_frames bound_frames]; [lia|].
+  inversion Hwf as [|? ? Hf Ht]; subst. specialize (IH Ht). pose proof (bound_of_ge_regen f Hf). lia.
+Qed.
+
+(* destructing a non-empty serialisation without losing its shape *)
+Lemma ser_nonempty : forall f rest, exists x s, ser_frame f ++ rest = x :: s.
+Proof.
+  intros f rest. destruct (ser_frame f ++ rest) as [|x s] eqn:E; [|eauto].
+  exfalso. assert (H : len (ser_frame f ++ rest) = 0) by (rewrite E; reflexivity).
+  rewrite len_app in H. pose proof (frame_len_ge4 f). unfold frame_len in *. pose proof (len_nonneg _ rest). lia.
+Qed.
+
+Lemma decompress_bound_loop_ser : forall fl fuel acc,
+  Forall wf_frame fl -> (length (ser_frames fl) <= length fuel)%nat ->
+  0 <= acc -> acc + bound_frames fl < CS_ERROR ->
+  decompress_bound_loop fuel (ser_frames fl) acc = Some (acc + bound_frames fl).
+Proof.
+  induction fl as [|f t IH]; intros fuel acc Hwf Hfuel Hacc Hsum.
+  - cbn [ser_frames bound_frames]. destruct fuel; cbn [decompress_bound_loop]; f_equal; lia.
+  - inversion Hwf as [|? ? Hf Ht]; subst. cbn [ser_frames bound_frames] in *.
+    pose proof (bound_of_ge_regen f Hf) as Hb. pose proof (bound_frames_ge_regen t Ht) as Hbt.
+    destruct (ser_nonempty f (ser_frames t)) as (x & s & E).
+    destruct fuel as [|y fuel'].
+    { exfalso. rewrite E in Hfuel. cbn [length] in Hfuel. lia. }
+    unfold decompress_bound_loop; fold decompress_bound_loop. rewrite E. rewrite <- E.
+    rewrite (find_frame_size_info_ser f _ Hf). cbn [fsi_bound fsi_csize].
+    destruct (Z.eqb_spec (bound_of f) CS_ERROR); [lia|].
+    rewrite (drop_exact_app_eq (ser_frame f)) by reflexivity.
+    rewrite W64_val. rewrite CS_ERROR_val in *. rewrite Z.mod_small by lia.
+    rewrite IH; try assumption; try lia.
+    + f_equal. lia.
+    + assert (Hl : (length (ser_frame f ++ ser_frames t) <= S (length fuel'))%nat) by exact Hfuel.
+      rewrite app_length in Hl. pose proof (frame_len_ge4 f) as H4. unfold frame_len in H4. rewrite len_spec in H4. lia.
+Qed.
+
+Theorem decompress_bound_ser : forall fl,
+  Forall wf_frame fl -> bound_frames fl < CS_ERROR ->
+  decompress_bound (ser_frames fl) = Some (bound_frames fl) /\ regen_frames fl <= bound_frames fl.
+Proof.
+  intros fl Hwf Hsum. split; [|apply bound_frames_ge_regen; assumption].
+  unfold decompress_bound. rewrite decompress_bound_loop_ser; try assumption; try lia. reflexivity.
+Qed.
+
+(* ---- ZSTD_getFrameHeader / ZSTD_getFrameContentSize at the start of a serialised frame ---- *)
+Definition zfh_of_frame (f : frame) : zfh :=
+  match f with
+  | ZFrame h _ _ => zfh_of h
+  | SFrame _ p => mk_zfh (len p) 0 0 true 0 0 false
+  end.
+
+Lemma get_frame_header_frame : forall f rest, wf_frame f ->
+  get_frame_header (ser_frame f ++ rest) = HOk (zfh_of_frame f).
+Proof.
+  intros f rest Hwf. destruct f as [h bl ck|v p].
+  - destruct Hwf as (Hh & _). cbn [ser_frame zfh_of_frame]. rewrite <- app_assoc.
+    apply get_frame_header_ser. exact Hh.
+  - destruct Hwf as (Hv & Hp). cbn [ser_frame zfh_of_frame].
+    pose proof (len_nonneg _ p) as Hp0. pose proof (len_nonneg _ rest) as Hr0. rewrite SKIPHDR_val, W32_val in Hp.
+    assert (Hmagic : le (firstn 4 ((ser_le 4 (SKIP_START + v) ++ ser_le 4 (len p) ++ p) ++ rest)) = SKIP_START + v).
+    { rewrite <- app_assoc. rewrite firstn_app_exact by (rewrite length_ser_le; reflexivity).
+      apply le_ser_le_small. rewrite SKIP_START_val. change (256 ^ Z.of_nat 4) with 4294967296. lia. }
+    assert (Hlen : len ((ser_le 4 (SKIP_START + v) ++ ser_le 4 (len p) ++ p) ++ rest) = 8 + len p + len rest).
+    { rewrite !len_app, !len_ser_le. change (Z.of_nat 4) with 4. lia. }
+    assert (Hsz : le (firstn 4 (skipn (Z.to_nat FRAMEIDSIZE) ((ser_le 4 (SKIP_START + v) ++ ser_le 4 (len p) ++ p) ++ rest))) = len p).
+    { change (Z.to_nat FRAMEIDSIZE) with 4%nat. rewrite <- !app_assoc.
+      rewrite skipn_app_exact by (rewrite length_ser_le; reflexivity).
+      rewrite firstn_app_exact by (rewrite length_ser_le; reflexivity).
+      apply le_ser_le_small. change (256 ^ Z.of_nat 4) with 4294967296. lia. }
+    unfold get_frame_header. rewrite Hlen, Hmagic, Hsz, MIN_INPUT_val, SKIPHDR_val.
+    destruct (Z.ltb_spec (8 + len p + len rest) 5); [lia|].
+    destruct (Z.eqb_spec (SKIP_START + v) MAGIC) as [E|_]; [rewrite SKIP_START_val, MAGIC_val in E; lia|].
+    cbn [negb]. rewrite (skippable_magic_ok v Hv).
+    destruct (Z.ltb_spec (8 + len p + len rest) 8); [lia|]. reflexivity.
+Qed.
+
+Theorem get_frame_content_size_ser : forall f rest, wf_frame f ->
+  get_frame_content_size (ser_frame f ++ rest) =
+    match f with
+    | ZFrame h bl _ => if has_fcs h then regen_blocks bl else CS_UNKNOWN
+    | SFrame _ _ => 0
+    end.
+Proof.
+  intros f rest Hwf. unfold get_frame_content_size. rewrite (get_frame_header_frame f rest Hwf).
+  destruct f as [h bl ck|v p]; cbn [zfh_of_frame zfh_of fh_skippable fh_fcs]; [|reflexivity].
+  destruct Hwf as (_ & _ & _ & _ & Hfcs). unfold fcs_of. destruct (has_fcs h); [apply Hfcs|]; reflexivity.
+Qed.
+
+(* ---- ZSTD_findDecompressedSize ---- *)
+Definition frame_has_size (f : frame) : bool :=
+  match f with ZFrame h _ _ => has_fcs h | SFrame _ _ => true end.
+
+Lemma frame_magic : forall f rest, wf_frame f ->
+  is_skippable_magic (le (firstn 4 (ser_frame f ++ rest))) = match f with ZFrame _ _ _ => false | SFrame _ _ => true end.
+Proof.
+  intros f rest Hwf. destruct f as [h bl ck|v p].
+  - destruct Hwf as (Hh & _). cbn [ser_frame]. rewrite <- app_assoc.
+    destruct (ser_header_facts h ((ser_blocks bl ++ (if h_chk h then ck else [])) ++ rest) Hh) as (Hm & _).
+    rewrite Hm. reflexivity.
+  - destruct Hwf as (Hv & Hp). cbn [ser_frame]. rewrite <- app_assoc.
+    rewrite firstn_app_exact by (rewrite length_ser_le; reflexivity).
+    rewrite le_ser_le_small by (rewrite SKIP_START_val; change (256 ^ Z.of_nat 4) with 4294967296; lia).
+    apply skippable_magic_ok. exact Hv.
+Qed.
+
+Lemma find_decompressed_size_loop_ser : forall fl fuel total,
+  Forall wf_frame fl -> forallb frame_has_size fl = true ->
+  (length (ser_frames fl) < length fuel)%nat ->
+  0 <= total -> total + regen_frames fl < CS_ERROR ->
+  find_decompressed_size_loop fuel (ser_frames fl) total = total + regen_frames fl.
+Proof.
+  induction fl as [|f t IH]; intros fuel total Hwf Hsz Hfuel Htot Hsum.
+  - cbn [ser_frames regen_frames]. destruct fuel as [|y fuel']; [cbn [length] in Hfuel; lia|].
+    cbn [find_decompressed_size_loop]. rewrite len_nil, MIN_INPUT_val. cbn. lia.
+  - inversion Hwf as [|? ? Hf Ht]; subst. cbn [ser_frames regen_frames forallb] in *.
+    apply Bool.andb_true_iff in Hsz. destruct Hsz as (Hsf & Hst).
+    pose proof (bound_of_ge_regen f Hf) as Hb. pose proof (bound_frames_ge_regen t Ht) as Hbt.
+    destruct fuel as [|y fuel']; [cbn [length] in Hfuel; lia|].
+    pose proof (frame_len_ge4 f) as H4.
+    assert (Hl : len (ser_frame f ++ ser_frames t) = frame_len f + len (ser_frames t)) by apply len_app.
+    pose proof (len_nonneg _ (ser_frames t)) as Hr0.
+    assert (Hfuel' : (length (ser_frames t) < length fuel')%nat).
+    { cbn [length] in Hfuel. rewrite app_length in Hfuel. unfold frame_len in H4. rewrite len_spec in H4. lia. }
+    assert (H5 : MIN_INPUT <= frame_len f).
+    { rewrite MIN_INPUT_val. destruct f as [h bl ck|v p].
+      - destruct Hf as (Hh & Hne & Hbl & _). rewrite frame_len_ZFrame.
+        pose proof (hsize_formula h (proj1 Hh) (proj1 (proj2 (proj2 Hh)))) as Hhs.
+        assert (5 <= hsize_of h).
+        { pose proof (frame_header_size_ser h [] Hh) as Hx. unfold frame_header_size in Hx.
+          destruct (Z.ltb_spec (len (ser_header h ++ [])) MIN_INPUT); [discriminate|].
+          rewrite app_nil_r in *. unfold hsize_of. rewrite MIN_INPUT_val in *. lia. }
+        assert (0 <= csize_blocks bl) by (rewrite <- len_ser_blocks; apply len_nonneg).
+        pose proof (len_nonneg _ ck). destruct (h_chk h); lia.
+      - unfold frame_len. cbn [ser_frame]. rewrite !len_app, !len_ser_le. change (Z.of_nat 4) with 4.
+        pose proof (len_nonneg _ p). lia. }
+    unfold find_decompressed_size_loop; fold find_decompressed_size_loop.
+    rewrite Hl. destruct (Z.ltb_spec (frame_len f + len (ser_frames t)) MIN_INPUT); [lia|].
+    rewrite (frame_magic f _ Hf).
+    destruct f as [h bl ck|v p].
+    + rewrite (get_frame_content_size_ser _ _ Hf). cbn [frame_has_size] in Hsf. rewrite Hsf.
+      cbn [regen_frame] in *.
+      rewrite CS_ERROR_val, W64_val in *.
+      destruct (Z.geb_spec (regen_blocks bl) 18446744073709551614); [lia|].
+      destruct (Z.geb_spec (total + regen_blocks bl) 18446744073709551616); [lia|].
+      unfold find_frame_compressed_size. rewrite (find_frame_size_info_ser _ _ Hf). cbn [fsi_csize].
+      rewrite (drop_exact_app_eq (ser_frame (ZFrame h bl ck))) by reflexivity.
+      rewrite IH; try assumption; try lia.
+    + assert (Hrs : read_skippable_frame_size (ser_frame (SFrame v p) ++ ser_frames t) = Some (frame_len (SFrame v p))).
+      { pose proof (find_frame_size_info_ser (SFrame v p) (ser_frames t) Hf) as Hx.
+        unfold find_frame_size_info in Hx. rewrite (frame_magic (SFrame v p) _ Hf) in Hx.
+        rewrite Hl in Hx. destruct (Z.leb_spec SKIPHDR (frame_len (SFrame v p) + len (ser_frames t))) as [_|Hc].
+        - cbn [andb] in Hx. destruct (read_skippable_frame_size _) as [s|]; [|discriminate].
+          injection Hx as Hx. rewrite Hx. reflexivity.
+        - exfalso. rewrite SKIPHDR_val in Hc. unfold frame_len in *. cbn [ser_frame] in *.
+          rewrite !len_app, !len_ser_le in Hc. change (Z.of_nat 4) with 4 in Hc. pose proof (len_nonneg _ p). lia. }
+      rewrite Hrs. rewrite (drop_exact_app_eq (ser_frame (SFrame v p))) by reflexivity.
+      cbn [regen_frame] in *. rewrite IH; try assumption; lia.
+Qed.
+
+Theorem find_decompressed_size_ser : forall fl,
+  Forall wf_frame fl -> forallb frame_has_size fl = true -> regen_frames fl < CS_ERROR ->
+  find_decompressed_size (ser_frames fl) = regen_frames fl.
+Proof.
+  intros fl Hwf Hsz Hsum. unfold find_decompressed_size.
+  rewrite find_decompressed_size_loop_ser; try assumption; try lia. cbn [length]. lia.
+Qed.
+
+(* ---- ZSTD_decompressionMargin ---- *)
+Lemma frame_len_SFrame : forall v p, frame_len (SFrame v p) = SKIPHDR + len p.
+Proof.
+  intros. unfold frame_len. cbn [ser_frame]. rewrite !len_app, !len_ser_le, SKIPHDR_val. change (Z.of_nat 4) with 4. lia.
+Qed.
+
+Lemma bound_of_nonneg : forall f, wf_frame f -> 0 <= bound_of f.
+Proof. intros f Hf. pose proof (bound_of_ge_regen f Hf). lia. Qed.
+
+Lemma decompression_margin_loop_ser : forall fl fuel margin maxbs,
+  Forall wf_frame fl -> (length (ser_frames fl) <= length fuel)%nat ->
+  bound_frames fl < CS_ERROR -> 0 <= maxbs ->
+  decompression_margin_loop fuel (ser_frames fl) margin maxbs =
+    Some (margin + overhead_frames fl + Z.max maxbs (maxbs_frames fl)).
+Proof.
+  induction fl as [|f t IH]; intros fuel margin maxbs Hwf Hfuel Hsum Hmb.
+  - cbn [ser_frames overhead_frames maxbs_frames]. destruct fuel; cbn [decompression_margin_loop]; f_equal; lia.
+  - inversion Hwf as [|? ? Hf Ht]; subst. cbn [ser_frames bound_frames overhead_frames] in *.
+    pose proof (bound_of_nonneg f Hf) as Hb. pose proof (bound_frames_ge_regen t Ht) as Hbt.
+    destruct (ser_nonempty f (ser_frames t)) as (x & s & E).
+    destruct fuel as [|y fuel'].
+    { exfalso. rewrite E in Hfuel. cbn [length] in Hfuel. lia. }
+    assert (Hfuel' : (length (ser_frames t) <= length fuel')%nat).
+    { assert (Hl : (length (ser_frame f ++ ser_frames t) <= S (length fuel'))%nat) by exact Hfuel.
+      rewrite app_length in Hl. pose proof (frame_len_ge4 f) as H4. unfold frame_len in H4. rewrite len_spec in H4. lia. }
+    unfold decompression_margin_loop; fold decompression_margin_loop. rewrite E. rewrite <- E.
+    rewrite (get_frame_header_frame f _ Hf), (find_frame_size_info_ser f _ Hf). cbn [fsi_bound fsi_csize fsi_nb].
+    destruct (Z.eqb_spec (bound_of f) CS_ERROR); [lia|].
+    rewrite (drop_exact_app_eq (ser_frame f)) by reflexivity.
+    destruct f as [h bl ck|v p]; cbn [zfh_of_frame zfh_of fh_skippable fh_hsize fh_chk fh_bsmax nb_of].
+    + rewrite IH; try assumption; try lia. cbn [overhead_of maxbs_frames]. f_equal. lia.
+    + rewrite IH; try assumption; try lia. cbn [overhead_of maxbs_frames]. rewrite frame_len_SFrame. f_equal. lia.
+Qed.
+
+Theorem decompression_margin_ser : forall fl,
+  Forall wf_frame fl -> bound_frames fl < CS_ERROR ->
+  decompression_margin (ser_frames fl) = Some (margin_of fl).
+Proof.
+  intros fl Hwf Hsum. unfold decompression_margin. rewrite decompression_margin_loop_ser; try assumption; try lia.
+  unfold margin_of. f_equal.
+  assert (0 <= maxbs_frames fl).
+  { clear Hsum. induction fl as [|f t IH]; cbn [maxbs_frames]; [lia|].
+    inversion Hwf; subst. destruct f; [|auto]. specialize (IH H2). lia. }
+  lia.
+Qed.
+
+(* ---- in-place decoding with the advertised margin ---- *)
+Fixpoint gain_blocks (bl : list blk) : Z :=
+  match bl with [] => 0 | b :: t => (b_regen b - len (b_payload b)) + gain_blocks t end.
+Definition gain_frame (f : frame) : Z := match f with ZFrame _ bl _ => gain_blocks bl | SFrame _ _ => 0 end.
+Fixpoint gain_frames (fl : list frame) : Z := match fl with [] => 0 | f :: t => gain_frame f + gain_frames t end.
+
+Lemma gain_blocks_nonneg : forall bl, Forall non_expanding_blk bl -> 0 <= gain_blocks bl.
+Proof.
+  induction bl as [|b t IH]; intros H; cbn [gain_blocks]; [lia|].
+  inversion H as [|? ? Hb Ht]; subst. specialize (IH Ht). unfold non_expanding_blk in Hb. lia.
+Qed.
+
+Lemma gain_frames_nonneg : forall fl, Forall non_expanding fl -> 0 <= gain_frames fl.
+Proof.
+  induction fl as [|f t IH]; intros H; cbn [gain_frames]; [lia|].
+  inversion H as [|? ? Hf Ht]; subst. specialize (IH Ht).
+  destruct f; cbn [gain_frame non_expanding] in *; [pose proof (gain_blocks_nonneg _ Hf)|]; lia.
+Qed.
+
+Lemma csize_blocks_gain : forall bl, csize_blocks bl = 3 * len bl + regen_blocks bl - gain_blocks bl.
+Proof.
+  induction bl as [|b t IH]; [reflexivity|].
+  cbn [csize_blocks regen_blocks gain_blocks]. rewrite len_cons, IH, BHSZ_val. unfold blk_csize. lia.
+Qed.
+
+Lemma inplace_blocks_ok : forall M bl op ip oend g,
+  Forall (wf_blk M) bl -> Forall non_expanding_blk bl ->
+  0 <= g -> M + gain_blocks bl + g <= ip - op -> op + regen_blocks bl <= oend ->
+  inplace_blocks bl op ip oend = Some (op + regen_blocks bl, ip + csize_blocks bl) /\
+  M + g <= (ip + csize_blocks bl) - (op + regen_blocks bl).
+Proof.
+  induction bl as [|b t IH]; intros op ip oend g Hwf Hne Hg Hinv Hend.
+  - cbn [inplace_blocks regen_blocks csize_blocks gain_blocks] in *. split; [f_equal; f_equal; lia|lia].
+  - inversion Hwf as [|? ? Hb Ht]; subst. inversion Hne as [|? ? Hnb Hnt]; subst.
+    cbn [inplace_blocks regen_blocks csize_blocks gain_blocks] in *.
+    pose proof (gain_blocks_nonneg t Hnt) as Hgt. pose proof (regen_blocks_le M t Ht) as Hrt.
+    destruct Hb as (Hr & Hs & Hty). unfold non_expanding_blk in Hnb. pose proof (len_nonneg _ (b_payload b)) as Hp.
+    rewrite BHSZ_val in *.
+    assert (Hok : (match b_type b with
+                   | BRaw => (b_regen b <=? oend - op) && (op <=? ip + 3)
+                   | _ => b_regen b <=? (if (op <=? ip + 3) && (ip + 3 <? oend) then ip + 3 else oend) - op
+                   end) = true).
+    { destruct (b_type b).
+      - apply Bool.andb_true_iff. split; apply Z.leb_le; lia.
+      - apply Z.leb_le. destruct ((op <=? ip + 3) && (ip + 3 <? oend)); lia.
+      - apply Z.leb_le. destruct ((op <=? ip + 3) && (ip + 3 <? oend)); lia. }
+    rewrite Hok.
+    destruct (IH (op + b_regen b) (ip + 3 + len (b_payload b)) oend g Ht Hnt Hg ltac:(lia) ltac:(lia)) as (Hrun & Hinv').
+    rewrite Hrun. unfold blk_csize. split; [f_equal; f_equal; lia|lia].
+Qed.
+
+Lemma len_ser_frames_gain : forall fl, Forall wf_frame fl ->
+  len (ser_frames fl) = overhead_frames fl + regen_frames fl - gain_frames fl.
+Proof.
+  induction fl as [|f t IH]; intros Hwf; [reflexivity|].
+  inversion Hwf as [|? ? Hf Ht]; subst.
+  rewrite len_ser_frames_cons, (IH Ht). cbn [overhead_frames regen_frames gain_frames].
+  destruct f as [h bl ck|v p].
+  - rewrite frame_len_ZFrame, csize_blocks_gain. cbn [overhead_of regen_frame gain_frame].
+    destruct Hf as (_ & _ & _ & Hck & _).
+    destruct (h_chk h) eqn:Hc; [|lia]. rewrite (len_spec _ ck), (Hck eq_refl). change (Z.of_nat 4) with 4. lia.
+  - rewrite frame_len_SFrame. cbn [overhead_of regen_frame gain_frame]. lia.
+Qed.
+
+Lemma inplace_frames_ok : forall M fl op ip oend,
+  Forall wf_frame fl -> Forall non_expanding fl ->
+  (forall h bl ck, In (ZFrame h bl ck) fl -> bsmax_of h <= M) ->
+  M + gain_frames fl <= ip - op -> op + regen_frames fl <= oend ->
+  inplace_frames fl op ip oend = Some (op + regen_frames fl, ip + len (ser_frames fl)).
+Proof.
+  induction fl as [|f t IH]; intros op ip oend Hwf Hne HM Hinv Hend.
+  - cbn [inplace_frames regen_frames ser_frames]. rewrite len_nil. f_equal. f_equal; lia.
+  - inversion Hwf as [|? ? Hf Ht]; subst. inversion Hne as [|? ? Hnf Hnt]; subst.
+    pose proof (gain_frames_nonneg t Hnt) as Hgt.
+    rewrite len_ser_frames_cons. cbn [regen_frames gain_frames] in *.
+    destruct f as [h bl ck|v p].
+    + cbn [inplace_frames regen_frame gain_frame non_expanding] in *.
+      destruct Hf as (Hh & Hnil & Hbl & Hck & Hfcs).
+      assert (HblM : Forall (wf_blk M) bl).
+      { assert (Hle : bsmax_of h <= M) by (apply (HM h bl ck); left; reflexivity).
+        eapply Forall_impl; [|exact Hbl]. intros b (Hr & Hs & Hty). repeat split; try lia; assumption. }
+      assert (Hhs : 0 <= hsize_of h) by (unfold hsize_of; apply len_nonneg).
+      pose proof (regen_blocks_le M bl HblM) as Hrb. pose proof (bound_frames_ge_regen t Ht) as Hrt.
+      destruct (inplace_blocks_ok M bl op (ip + hsize_of h) oend (gain_frames t) HblM Hnf Hgt ltac:(lia) ltac:(lia)) as (Hrun & Hinv').
+      rewrite Hrun.
+      rewrite IH; try assumption; try (destruct (h_chk h); lia);
+        try (intros h' bl' ck' Hin; apply (HM h' bl' ck'); right; exact Hin).
+      rewrite frame_len_ZFrame. f_equal. f_equal; [lia|].
+      destruct (h_chk h) eqn:Hc; [|lia]. rewrite (len_spec _ ck), (Hck eq_refl). change (Z.of_nat 4) with 4. lia.
+    + cbn [inplace_frames regen_frame gain_frame] in *. pose proof (len_nonneg _ p). rewrite SKIPHDR_val in *.
+      rewrite IH; try assumption; try lia;
+        try (intros h' bl' ck' Hin; apply (HM h' bl' ck'); right; exact Hin).
+      rewrite frame_len_SFrame, SKIPHDR_val. f_equal. f_equal; lia.
+Qed.
+
+Lemma maxbs_frames_bound : forall fl h bl ck, Forall wf_frame fl -> In (ZFrame h bl ck) fl -> bsmax_of h <= maxbs_frames fl.
+Proof.
+  induction fl as [|f t IH]; intros h bl ck Hwf Hin; [destruct Hin|].
+  inversion Hwf as [|? ? Hf Ht]; subst. destruct Hin as [->|Hin].
+  - cbn [maxbs_frames]. lia.
+  - specialize (IH h bl ck Ht Hin). destruct f; cbn [maxbs_frames]; lia.
+Qed.
+
+Lemma overhead_frames_nonneg : forall fl, 0 <= overhead_frames fl.
+Proof.
+  induction fl as [|f t IH]; cbn [overhead_frames]; [lia|].
+  destruct f as [h bl ck|v p]; cbn [overhead_of].
+  - pose proof (len_nonneg _ (ser_header h)). pose proof (len_nonneg _ bl). unfold hsize_of. destruct (h_chk h); lia.
+  - pose proof (len_nonneg _ p). rewrite SKIPHDR_val. lia.
+Qed.
+
+Lemma maxbs_frames_nonneg : forall fl, Forall wf_frame fl -> 0 <= maxbs_frames fl.
+Proof.
+  induction fl as [|f t IH]; intros Hwf; cbn [maxbs_frames]; [lia|].
+  inversion Hwf; subst. destruct f; [|auto]. specialize (IH H2). lia.
+Qed.
+
+(* Output buffer of (decoded size + ZSTD_decompressionMargin) bytes, input placed at its end: every block can be
+   produced without leaving the buffer and without overwriting input that has not been read - provided no block is
+   larger than what it regenerates. *)
+Theorem inplace_margin_sound_lemma : forall fl,
+  Forall wf_frame fl -> Forall non_expanding fl ->
+  let B := regen_frames fl + margin_of fl in
+  inplace_decode fl B = Some (regen_frames fl, B).
+Proof.
+  intros fl Hwf Hne B. unfold inplace_decode.
+  pose proof (len_ser_frames_gain fl Hwf) as Hlen. pose proof (gain_frames_nonneg fl Hne) as Hg.
+  pose proof (bound_frames_ge_regen fl Hwf) as Hr.
+  rewrite (inplace_frames_ok (maxbs_frames fl)); try assumption.
+  - f_equal. f_equal; subst B; lia.
+  - intros h bl ck Hin. apply (maxbs_frames_bound fl h bl ck Hwf Hin).
+  - subst B. unfold margin_of. lia.
+  - subst B. unfold margin_of.
+    pose proof (overhead_frames_nonneg fl). pose proof (maxbs_frames_nonneg fl Hwf). lia.
+Qed.
+
+(* the hypothesis on the blocks is needed: a well-formed layout (the hand-made valid frame of harness/c06_sweep.c:
+   window 1 KiB, one RLE block of 1024 bytes, then 1010 compressed blocks of 3 bytes regenerating 1 byte each) for
+   which in-place decoding with the advertised margin fails *)
+Definition expanding_witness : list frame :=
+  [ZFrame (mk_fhdr false 0 0 0 0 0 0 false)
+          (mk_blk BRle [82] 1024 :: repeat (mk_blk BCmp [8; 97; 0] 1) 1010)
+          []].
+
+Lemma Forall_repeat : forall (A : Type) (P : A -> Prop) x n, P x -> Forall P (repeat x n).
+Proof. induction n; intros; cbn [repeat]; constructor; auto. Qed.
+
+Lemma inplace_margin_refuted_lemma :
+  Forall wf_frame expanding_witness /\
+  decompression_margin (ser_frames expanding_witness) = Some 4063 /\
+  inplace_decode expanding_witness (regen_frames expanding_witness + 4063) = None.
+Proof.
+  split; [|split; vm_compute; reflexivity].
+  constructor; [|constructor]. unfold wf_frame. split; [|split; [discriminate|split; [|split; [discriminate|discriminate]]]].
+  - unfold wf_hdr. cbn [h_single h_wexp h_wmant h_didc h_did h_fcsc h_fcs h_chk has_fcs did_width Z.eqb orb negb].
+    rewrite WLOG_ABSMIN_val, WLOG_MAX_val.
+    split; [lia|]. split; [cbn; lia|]. split; [lia|]. split; [intros _; lia|intros H; discriminate].
+  - constructor.
+    + unfold wf_blk. cbn. repeat split; lia.
+    + apply Forall_repeat. unfold wf_blk. cbn. repeat split; lia.
+Qed.
+
+Theorem find_frame_compressed_size_ser : forall f rest, wf_frame f ->
+  find_frame_compressed_size (ser_frame f ++ rest) = Some (len (ser_frame f)).
+Proof.
+  intros f rest Hwf. unfold find_frame_compressed_size. rewrite (find_frame_size_info_ser f rest Hwf). reflexivity.
+Qed.
+
+(* the hypotheses are satisfiable: a skippable frame followed by a single-segment frame with checksum *)
+Definition example_layout : list frame :=
+  [SFrame 3 [1; 2; 3];
+   ZFrame (mk_fhdr true 0 0 1 7 0 5 true) [mk_blk BRaw [1; 2; 3] 3; mk_blk BRle [9] 2] [0; 0; 0; 0]].
+
+Example example_layout_ok :
+  Forall wf_frame example_layout /\ Forall non_expanding example_layout /\
+  forallb frame_has_size example_layout = true /\
+  find_decompressed_size (ser_frames example_layout) = 5 /\
+  decompress_bound (ser_frames example_layout) = Some 5 /\
+  decompression_margin (ser_frames example_layout) = Some (11 + (7 + 4 + 6) + 5) /\
+  inplace_decode example_layout (5 + 33) = Some (5, 38).
+Proof.
+  split; [|split; [|repeat split; vm_compute; reflexivity]].
+  - constructor; [|constructor; [|constructor]].
+    + unfold wf_frame. split; [lia|]. vm_compute. reflexivity.
+    + unfold wf_frame. split; [|split; [discriminate|split; [|split; [reflexivity|reflexivity]]]].
+      * unfold wf_hdr. cbn [h_single h_wexp h_wmant h_didc h_did h_fcsc h_fcs h_chk has_fcs did_width Z.eqb Pos.eqb orb negb].
+        split; [lia|]. split; [cbn; lia|]. split; [lia|]. split; [intros H; discriminate|].
+        intros _. repeat split; intros; try lia; try discriminate.
+      * constructor; [|constructor; [|constructor]]; unfold wf_blk; cbn; repeat split; lia.
+  - constructor; [exact I|constructor; [|constructor]].
+    cbn [non_expanding]. constructor; [|constructor; [|constructor]]; unfold non_expanding_blk; cbn; lia.
+Qed.
